@@ -414,6 +414,18 @@ func (e *Exec) loopHeader(fr *frame, li *loopInfo, b, pred *ssa.BasicBlock, st *
 	fromInside := pred != nil && li.body[pred]
 	// bind phis to incoming values for evaluating the invariant
 	e.evalPhis(b, pred, st)
+	// inferred counter bounds for bottom-tested counting loops (e.g. range-over-int): checked like
+	// written invariants, so that such a loop needs no different contract than its top-tested form
+	autoBounds := e.autoBounds(li, b)
+	for k, ab := range autoBounds {
+		kind := "inv-entry"
+		if fromInside {
+			kind = "inv-preserved"
+		}
+		if g, ok := ab(st); ok {
+			e.oblige(st, fmt.Sprintf("%s/%s:auto-bound%d", name, kind, k+1), e.propsFor(fr, "safety"), g, "inferred counter bound")
+		}
+	}
 	vars := e.loopVars(fr, li, st)
 	for _, inv := range li.spec.Invariants {
 		kind := "inv-entry"
@@ -543,6 +555,11 @@ func (e *Exec) loopHeader(fr *frame, li *loopInfo, b, pred *ssa.BasicBlock, st *
 			e.ctx.genAlloc[hst.havocPref[i].gen] = hst.alloc
 		}
 	}
+	for _, ab := range autoBounds {
+		if g, ok := ab(hst); ok {
+			hst.pc = append(hst.pc, g)
+		}
+	}
 	vars = e.loopVars(fr, li, hst)
 	for _, inv := range li.spec.Invariants {
 		g, err := e.evalSpecBool(inv.Expr, &specEnv{into: hst, st: hst, old: e.entry, vars: vars, oldVars: e.entryVars, fr: fr, pkg: pkgOf(fr.fn)})
@@ -566,6 +583,99 @@ func (e *Exec) loopHeader(fr *frame, li *loopInfo, b, pred *ssa.BasicBlock, st *
 type pointWrite struct {
 	base ssa.Value
 	cls  string // heap symbol prefix (class + field path)
+}
+
+// autoBounds recognises a counting phi x of header h whose entry edge and back edge are both taken
+// only when `x' < N` holds for the incoming value x' (N defined outside the loop): then x < N at
+// the header. With a constant non-negative start and a positive constant step also start <= x.
+func (e *Exec) autoBounds(li *loopInfo, h *ssa.BasicBlock) []func(st *State) (Term, bool) {
+	var out []func(st *State) (Term, bool)
+	if len(h.Preds) != 2 {
+		return out
+	}
+	guardOf := func(pred *ssa.BasicBlock) (*ssa.BinOp, bool) {
+		if len(pred.Instrs) == 0 {
+			return nil, false
+		}
+		ifi, ok := pred.Instrs[len(pred.Instrs)-1].(*ssa.If)
+		if !ok || pred.Succs[0] != h {
+			return nil, false
+		}
+		bo, ok := ifi.Cond.(*ssa.BinOp)
+		if !ok || bo.Op != token.LSS {
+			return nil, false
+		}
+		return bo, true
+	}
+	for _, in := range h.Instrs {
+		phi, ok := in.(*ssa.Phi)
+		if !ok {
+			break
+		}
+		if bt, ok := phi.Type().Underlying().(*types.Basic); !ok || bt.Info()&types.IsInteger == 0 {
+			continue
+		}
+		g0, ok0 := guardOf(h.Preds[0])
+		g1, ok1 := guardOf(h.Preds[1])
+		if !ok0 || !ok1 || !sameSSA(g0.Y, g1.Y) || !sameSSA(g0.X, phi.Edges[0]) || !sameSSA(g1.X, phi.Edges[1]) {
+			continue
+		}
+		if yi, ok := g0.Y.(ssa.Instruction); ok && li.body[yi.Block()] {
+			continue
+		}
+		p, bound := phi, g0.Y
+		out = append(out, func(st *State) (Term, bool) {
+			pv, ok1 := st.env[p]
+			var bv SV
+			ok2 := true
+			if c, isC := bound.(*ssa.Const); isC {
+				bv = e.constVal(c)
+			} else {
+				bv, ok2 = st.env[bound]
+			}
+			if !ok1 || !ok2 || len(pv.L) != 1 || len(bv.L) != 1 {
+				return Term{}, false
+			}
+			return Lt(pv.L[0], bv.L[0]), true
+		})
+		// lower bound
+		for k := 0; k < 2; k++ {
+			c0, isC := phi.Edges[k].(*ssa.Const)
+			step, isB := phi.Edges[1-k].(*ssa.BinOp)
+			if !isC || !isB || step.Op != token.ADD || step.X != phi {
+				continue
+			}
+			sc, isSC := step.Y.(*ssa.Const)
+			if !isSC || c0.Value == nil || sc.Value == nil {
+				continue
+			}
+			lo, ok := litInt(e.constVal(c0).L[0])
+			inc, ok2 := litInt(e.constVal(sc).L[0])
+			if !ok || !ok2 || inc <= 0 {
+				continue
+			}
+			out = append(out, func(st *State) (Term, bool) {
+				pv, ok := st.env[p]
+				if !ok || len(pv.L) != 1 {
+					return Term{}, false
+				}
+				return Ge(pv.L[0], IntLit(lo)), true
+			})
+		}
+	}
+	return out
+}
+
+func sameSSA(a, b ssa.Value) bool {
+	if a == b {
+		return true
+	}
+	ca, ok1 := a.(*ssa.Const)
+	cb, ok2 := b.(*ssa.Const)
+	if ok1 && ok2 && ca.Value != nil && cb.Value != nil {
+		return ca.Value.ExactString() == cb.Value.ExactString() && types.Identical(ca.Type(), cb.Type())
+	}
+	return false
 }
 
 type writeSet struct {
